@@ -181,7 +181,7 @@ where
                 // it's not => check capicity
                 if size < self.k {
                     // space left => add to top k
-                    debug_assert!(count == 1);
+                    // (`count` may exceed 1 here: the sketch over-estimates under collisions)
                     v.insert(1);
                     self.tree.insert(TreeEntry {
                         obj: Rc::clone(&rc),
